@@ -411,8 +411,7 @@ Proof.
   destruct (tc_cached cl) as [c|].
   - destruct (conn_open cs c); [reflexivity|].
     change (with_clients (G p) ?X) with (G (with_clients p X)). apply IH.
-  - destruct (existsb _ (w_tcp_listeners w)); [|reflexivity].
-    change (with_clients (G p) ?X) with (G (with_clients p X)). apply IH.
+  - destruct (existsb _ (w_tcp_listeners w)); reflexivity.
 Qed.
 Lemma G_failover_send li local rs f b p cs w :
   failover_send li local rs f b (G p) cs w =
@@ -812,8 +811,7 @@ Proof.
     destruct (tc_cached cl) as [c|].
     + destruct (conn_open cs c); [intros H; injection H as <- _ _ _ _; reflexivity|].
       intros H. apply IH in H. exact H.
-    + destruct (existsb _ (w_tcp_listeners w)); [|intros H; injection H as <- _ _ _ _; reflexivity].
-      intros H. apply IH in H. exact H.
+    + destruct (existsb _ (w_tcp_listeners w)); intros H; injection H as <- _ _ _ _; reflexivity.
 Qed.
 Lemma fos_table li local rs f b p cs w p' cs' w' outs ok f' :
   failover_send li local rs f b p cs w = (p', cs', w', outs, ok, f') ->
@@ -1201,6 +1199,69 @@ Example slots_ex : udp_slot_ok (s2b "127.0.0.9") 40000 (init_pstate cfgh 0 (ex_l
 Proof. split; [exact I|]. split; intros k f []. Qed.
 End C02_examples.
 
+(* ====================================================================== stale cached connection: redial AND write *)
+(* TCPClientTransport.Send runs two rounds, and the round that dials also writes.  A reconnectable client whose
+   cached connection has been closed by the peer therefore spends round 1 on the failed write (the cache is
+   cleared) and in round 2 dials the peer and writes the message on the fresh connection: the message is NOT
+   lost.  (The model used to spend one unit of fuel on the dial alone and stayed silent in this situation; the
+   correspondence check against the Go code found that.) *)
+Lemma find_set_cached_eq id v l cl : find_client id l = Some cl ->
+  find_client id (set_client_cached id v l) =
+  Some {| tc_id := id; tc_host := tc_host cl; tc_port := tc_port cl; tc_cached := v |}.
+Proof.
+  unfold find_client. induction l as [|x r IH]; cbn; [discriminate|].
+  destruct (Nat.eqb (tc_id x) id) eqn:E; cbn.
+  - rewrite Nat.eqb_refl. intros H. injection H as <-. reflexivity.
+  - rewrite E. exact IH.
+Qed.
+Lemma set_client_cached_twice id v1 v2 l :
+  set_client_cached id v2 (set_client_cached id v1 l) = set_client_cached id v2 l.
+Proof.
+  induction l as [|x r IH]; cbn; [reflexivity|].
+  destruct (Nat.eqb (tc_id x) id) eqn:E; cbn.
+  - rewrite Nat.eqb_refl. reflexivity.
+  - rewrite E, IH. reflexivity.
+Qed.
+
+Theorem C02_stale_redial : forall li local rs id b p cs w outs cl c,
+  find_client id (ps_clients p) = Some cl ->
+  tc_cached cl = Some c ->
+  conn_open cs c = false ->
+  existsb (fun '(h, pt) => beq h (tc_host cl) && Z.eqb pt (tc_port cl)) (w_tcp_listeners w) = true ->
+  let c' := w_next_conn w in
+  let p' := with_clients p (set_client_cached id (Some c') (ps_clients p)) in
+  let cs' := cs ++ [{| cn_id := c'; cn_li := li; cn_open := true; cn_peer := tc_host cl; cn_peer_port := tc_port cl;
+                       cn_from := {| t_kind := KTcpConn; t_addr := local; t_port := 0 |};
+                       cn_received_support := rs |}] in
+  tcp_client_send 2 li local rs id b p cs w outs =
+    (p', cs', {| w_tcp_listeners := w_tcp_listeners w; w_next_conn := S c' |},
+     outs ++ [(DDial (tc_host cl) (tc_port cl) c', []); (DConn c', b)], true) /\
+  find_client id (ps_clients p') =
+    Some {| tc_id := id; tc_host := tc_host cl; tc_port := tc_port cl; tc_cached := Some c' |} /\
+  conn_open cs' c' = true.
+Proof.
+  intros li local rs id b p cs w outs cl c F C O L c' p' cs'. split; [|split].
+  - subst p' cs' c'. cbn [tcp_client_send]. rewrite F, C, O.
+    cbn [ps_clients with_clients].
+    rewrite (find_set_cached_eq id None _ cl F). cbn [tc_cached tc_host tc_port].
+    match goal with |- (if ?e then _ else _) = _ => replace e with true by (symmetry; exact L) end.
+    rewrite set_client_cached_twice. reflexivity.
+  - subst p'. cbn [ps_clients with_clients]. apply find_set_cached_eq. exact F.
+  - subst cs'. unfold conn_open. rewrite existsb_app. cbn [existsb cn_id cn_open].
+    rewrite Nat.eqb_refl. cbn [andb orb]. apply orb_true_r.
+Qed.
+
+(* non-vacuity: a client whose cached connection 3 is gone (no connection record at all), peer listening *)
+Example C02_stale_redial_ex : forall p0 : pstate,
+  let cl := {| tc_id := 0; tc_host := s2b "10.0.0.2"%string; tc_port := 5070; tc_cached := Some 3%nat |} in
+  let p := with_clients p0 [cl] in
+  let w := {| w_tcp_listeners := [(s2b "10.0.0.2"%string, 5070)]; w_next_conn := 4 |} in
+  find_client 0 (ps_clients p) = Some cl /\ tc_cached cl = Some 3%nat /\ conn_open [] 3 = false /\
+  existsb (fun '(h, pt) => beq h (tc_host cl) && Z.eqb pt (tc_port cl)) (w_tcp_listeners w) = true /\
+  snd (fst (tcp_client_send 2 0 (s2b "127.0.0.1"%string) true 0 (s2b "x"%string) p [] w [])) =
+    [(DDial (s2b "10.0.0.2"%string) 5070 4%nat, []); (DConn 4%nat, s2b "x"%string)].
+Proof. intros p0. repeat split. Qed.
+
 (* ====================================================================== closed proofs *)
 Print Assumptions C02_response_general.
 Print Assumptions C02_response_hop.
@@ -1222,3 +1283,4 @@ Print Assumptions C02_tcp_slot_reachable.
 Print Assumptions C02_step_udp_relay_tcp.
 Print Assumptions C02_step_tcp.
 Print Assumptions C02_examples.C02_legacy_refuted.
+Print Assumptions C02_stale_redial.
